@@ -67,6 +67,9 @@ func (root *Root) ResolveExecutable(
 	// Returned error can be either an array of errors as a Errors, an Error,
 	// or just a plain fmt.Errorf() return.
 
+	if root.schema == nil {
+		return nil, fmt.Errorf("%w, no schema has been loaded", ErrResolve)
+	}
 	op := exe.Ops[opName]
 	if op == nil {
 		if len(exe.Ops) == 1 {
